@@ -661,21 +661,6 @@ class SchedModel:
     def _build_if_chain(self) -> None:
         self._if_chain: Dict[int, Tuple[Tuple[ast.AST, bool], ...]] = {}
 
-        def go(stmts, chain):
-            for s in stmts:
-                for n in own_walk(s):
-                    self._if_chain.setdefault(id(n), chain)
-                if isinstance(s, ast.If):
-                    go(s.body, chain + ((s.test, True),))
-                    go(s.orelse, chain + ((s.test, False),))
-                elif isinstance(s, (ast.For, ast.AsyncFor, ast.While, ast.With, ast.AsyncWith)):
-                    go(s.body, chain)
-                elif isinstance(s, ast.Try):
-                    go(s.body, chain)
-                    for h in s.handlers:
-                        go(h.body, chain)
-                    go(s.finalbody, chain)
-
         # innermost chain wins: process so that nested statements overwrite
         def go2(stmts, chain):
             for s in stmts:
@@ -684,7 +669,9 @@ class SchedModel:
                 if isinstance(s, ast.If):
                     go2(s.body, chain + ((s.test, True),))
                     go2(s.orelse, chain + ((s.test, False),))
-                elif isinstance(s, (ast.For, ast.AsyncFor, ast.While, ast.With, ast.AsyncWith)):
+                elif isinstance(s, ast.While):
+                    go2(s.body, chain + ((s.test, True),))
+                elif isinstance(s, (ast.For, ast.AsyncFor, ast.With, ast.AsyncWith)):
                     go2(s.body, chain)
                 elif isinstance(s, ast.Try):
                     go2(s.body, chain)
@@ -714,7 +701,7 @@ class SchedModel:
                 a = cfg.node[n]
                 if n == self.loop:
                     continue
-                if k == "COND":
+                if k == "COND" or (k == "LOOP" and lab in (True, False)):
                     cl = self.clauses(a, bool(lab))
                     for c in cl:
                         if len(c) == 1:
@@ -728,7 +715,7 @@ class SchedModel:
                     facts = facts + cl
                     events.append(Event("BRANCH", {"test": norm_src(a), "taken": lab, "clauses": cl}, a, tuple(facts)))
                     branches.append((norm_src(a), lab))
-                elif k in ("STMT", "WITH", "TRY", "FOR", "LOOP", "EXCEPT"):
+                elif k in ("STMT", "WITH", "TRY", "FOR", "EXCEPT"):
                     if a is None:
                         continue
                     node = a
